@@ -30,8 +30,17 @@ impl<L: Language, CF: CostFunction<L>> Extractor<L, CF> {
         let mut map: HashMap<Id, WithOrdRev<L, CF::Cost>> = HashMap::default();
         let mut queue: BinaryHeap<WithOrdRev<L, CF::Cost>> = BinaryHeap::new();
 
+        // Candidates of equal cost are decided by the order in which they enter the queue. The e-nodes of a class come
+        // from a hash set, whose order follows the numeric ids of interned symbols (and thereby what other threads
+        // interned first): visit them in the order of their printed form instead.
+        let by_text = |v: Vec<L>| -> Vec<L> {
+            let mut v: Vec<(String, L)> = v.into_iter().map(|n| (format!("{n:?}"), n)).collect();
+            v.sort_by(|a, b| a.0.cmp(&b.0));
+            v.into_iter().map(|(_, n)| n).collect()
+        };
+
         for id in eg.ids() {
-            for x in eg.enodes(id) {
+            for x in by_text(eg.enodes(id).into_iter().collect()) {
                 if x.applied_id_occurrences().is_empty() {
                     let x = eg.class_nf(&x);
                     let c = cost_fn.cost(&x, |_| panic!());
@@ -47,7 +56,7 @@ impl<L: Language, CF: CostFunction<L>> Extractor<L, CF> {
             }
             map.insert(i.id, WithOrdRev(enode, c));
 
-            for x in eg.usages(i.id).clone() {
+            for x in by_text(eg.usages(i.id).iter().cloned().collect()) {
                 if x.applied_id_occurrences()
                     .iter()
                     .all(|i| map.contains_key(&i.id))
